@@ -479,3 +479,26 @@ Qed.
 
 Theorem ms_spec_iff_ordered_match : forall v sigs keys, ms_spec v sigs keys = true <-> ordered_match v sigs keys.
 Proof. intros; split; [apply ms_spec_sound|apply ms_spec_complete]. Qed.
+
+(* ------------------------------------------------------------------ the end of OP_CHECKMULTISIG: dummy element and result *)
+Lemma multisig_nulldummy : forall c e2 fS opcode, 1 <= ssize e2 ->
+  has_flag (c_flags c) SCRIPT_VERIFY_NULLDUMMY = true -> stop e2 1 <> [] ->
+  multisig_finish c e2 fS opcode = fail e2 SCRIPT_ERR_SIG_NULLDUMMY.
+Proof.
+  intros c e2 fS opcode Hs Hf Hd. unfold multisig_finish. replace (ssize e2 <? 1) with false by lia. rewrite Hf. cbn [andb].
+  destruct (stop e2 1) as [|b r]; [contradiction|]. reflexivity.
+Qed.
+
+(* otherwise the dummy is dropped and the result of the matching pushed (VERIFY: consumed, or the CHECKMULTISIGVERIFY error) *)
+Lemma multisig_result : forall c e2 fS opcode, 1 <= ssize e2 ->
+  (has_flag (c_flags c) SCRIPT_VERIFY_NULLDUMMY = true -> stop e2 1 = []) ->
+  multisig_finish c e2 fS opcode =
+    if opcode =? OP_CHECKMULTISIGVERIFY
+    then (if fS then ok (popn e2 1) else fail (pushs (popn e2 1) (bool_vch false)) SCRIPT_ERR_CHECKMULTISIGVERIFY)
+    else ok (pushs (popn e2 1) (bool_vch fS)).
+Proof.
+  intros c e2 fS opcode Hs Hd. unfold multisig_finish. replace (ssize e2 <? 1) with false by lia.
+  destruct (has_flag (c_flags c) SCRIPT_VERIFY_NULLDUMMY) eqn:Hf; cbn [andb].
+  - rewrite (Hd eq_refl). cbn [zlen length Z.of_nat Z.eqb negb]. destruct (opcode =? OP_CHECKMULTISIGVERIFY); [destruct fS|]; reflexivity.
+  - destruct (opcode =? OP_CHECKMULTISIGVERIFY); [destruct fS|]; reflexivity.
+Qed.
